@@ -354,6 +354,14 @@ where
                 unique_leaves,
             )
         }))(input)?;
+        if inserted.len() == 0 {
+            // no leaves: there is neither a maximal number nor a span for it
+            return Err(Err::Failure(E::from_external_error(
+                span,
+                ErrorKind::Fail,
+                "tree without leaves".to_string(),
+            )));
+        }
         if let Some(n) = inserted.zeroes().next() {
             return Err(Err::Failure(E::from_external_error(
                 span,
